@@ -51,6 +51,7 @@ inductive Op where
   | openLatest (h : Nat)
   | openId (h : Nat) (id : Nat)
   | openSerial (h : Nat) (serial : Nat)
+  | openBoth (h : Nat) (id : Nat) (serial : Nat)   -- reader(id=…, serial=…): refused before anything is looked at
   | close (h : Nat)
   | wopen
   | commit (content : Nat) (serial : Option Nat) (changed : Bool)
@@ -122,6 +123,7 @@ def step (s : State) : Op → State × Out
     match findSerial s.versions sn with
     | some v => ({ s with readers := s.readers ++ [(h, v)] }, .pinned v.id v.content)
     | none => (s, .err .keyError)
+  | .openBoth _ _ _ => (s, .err .valueError)
   | .close h =>
     match findReader s.readers h with
     | some _ => (prune { s with readers := removeReader s.readers h }, .ok)
@@ -160,5 +162,112 @@ def run (s : State) : List Op → State × List Out
     let r := step s op
     let q := run r.1 rest
     (q.1, r.2 :: q.2)
+
+/-! ## the copy-on-write mechanism behind a snapshot
+
+Model of `dns.zone.WritableVersion` (`changed`, `_maybe_cow_with_name`, `delete_node`, `put_rdataset`),
+`dns.btreezone.WritableVersion.update_glue_flag`, `ImmutableVersion.__init__` (freeze the changed names) and of
+`Transaction._end_transaction`, with **node identity**: a node is a heap cell; versions map names to cell ids and
+share cells.  A write is a write to a cell whatever versions point to it — nothing is isolated by construction.
+`content` stands for everything a node holds (rdatasets, flags). -/
+
+structure Cell where
+  frozen : Bool
+  content : Nat
+  deriving DecidableEq, Repr
+
+abbrev NMap := List (Nat × Nat)      -- name ↦ cell id, at most one pair per name
+
+def nlookup (m : NMap) (name : Nat) : Option Nat := (m.find? (fun p => p.1 = name)).map (·.2)
+def nerase (m : NMap) (name : Nat) : NMap := m.filter (fun p => p.1 ≠ name)
+def nset (m : NMap) (name id : Nat) : NMap := (name, id) :: nerase m name
+
+structure Writer where
+  nodes : NMap
+  changed : List Nat
+  base : Nat            -- ghost: heap size when the transaction began
+  deriving Repr
+
+structure CowState where
+  heap : List Cell
+  versions : List NMap  -- committed versions, oldest first
+  w : Option Writer
+  deriving Repr
+
+inductive CowOp where
+  | begin (replacement : Bool)
+  | put (name : Nat) (c : Nat)                 -- put_rdataset / delete_rdataset on a node that stays
+  | del (name : Nat)                           -- delete_node
+  | flip (names : List Nat) (c : Nat)          -- update_glue_flag over the names beneath a cut
+  | commit
+  | rollback
+  deriving Repr
+
+def cellContent (heap : List Cell) (id : Nat) : Nat := (heap[id]?.map (·.content)).getD 0
+
+/-- `_maybe_cow_with_name`: `if node is None or name not in self.changed: new node, copy, changed.add(name)` -/
+def cowName (heap : List Cell) (x : Writer) (name : Nat) : List Cell × Writer × Nat :=
+  match nlookup x.nodes name with
+  | some id =>
+    if name ∈ x.changed then (heap, x, id)
+    else (heap ++ [⟨false, cellContent heap id⟩],
+          { x with nodes := nset x.nodes name heap.length, changed := name :: x.changed }, heap.length)
+  | none => (heap ++ [⟨false, 0⟩], { x with nodes := nset x.nodes name heap.length, changed := name :: x.changed }, heap.length)
+
+/-- a write to a node object: it hits the cell, whoever shares it -/
+def writeCell (heap : List Cell) (id c : Nat) : List Cell := heap.set id ⟨(heap[id]?.map (·.frozen)).getD false, c⟩
+
+/-- one name of `update_glue_flag`: `if ename not in self.changed: copy; self.changed.add(ename)`, set the flag,
+`self.nodes[ename] = node` -/
+def flipOne (c : Nat) (hx : List Cell × Writer) (ename : Nat) : List Cell × Writer :=
+  match nlookup hx.2.nodes ename with
+  | none => hx
+  | some id =>
+    if ename ∈ hx.2.changed then (writeCell hx.1 id c, hx.2)
+    else (hx.1 ++ [⟨false, c⟩], { hx.2 with nodes := nset hx.2.nodes ename hx.1.length, changed := ename :: hx.2.changed })
+
+/-- `ImmutableVersion.__init__`: every changed name that still has a node gets a new immutable node object -/
+def freezeOne (hm : List Cell × NMap) (name : Nat) : List Cell × NMap :=
+  match nlookup hm.2 name with
+  | none => hm
+  | some id => (hm.1 ++ [⟨true, cellContent hm.1 id⟩], nset hm.2 name hm.1.length)
+
+def cowStep (s : CowState) : CowOp → CowState
+  | .begin repl =>
+    match s.w with
+    | some _ => s
+    | none => { s with w := some { nodes := if repl then [] else (s.versions.getLast?.getD []), changed := [], base := s.heap.length } }
+  | .put name c =>
+    match s.w with
+    | none => s
+    | some x => let r := cowName s.heap x name; { s with heap := writeCell r.1 r.2.2 c, w := some r.2.1 }
+  | .del name =>
+    match s.w with
+    | none => s
+    | some x =>
+      match nlookup x.nodes name with
+      | none => s
+      | some _ => { s with w := some { x with nodes := nerase x.nodes name, changed := name :: x.changed } }
+  | .flip names c =>
+    match s.w with
+    | none => s
+    | some x => let r := names.foldl (flipOne c) (s.heap, x); { s with heap := r.1, w := some r.2 }
+  | .commit =>
+    match s.w with
+    | none => s
+    | some x =>
+      if x.changed = [] then { s with w := none }
+      else let r := x.changed.foldl freezeOne (s.heap, x.nodes); { heap := r.1, versions := s.versions ++ [r.2], w := none }
+  | .rollback => { s with w := none }
+
+def cowRun (s : CowState) : List CowOp → CowState
+  | [] => s
+  | op :: rest => cowRun (cowStep s op) rest
+
+/-- `Zone.__init__`: the empty version -/
+def cowInit : CowState := { heap := [], versions := [[]], w := none }
+
+/-- what a reader of version `m` sees: every name with the content of its node -/
+def view (heap : List Cell) (m : NMap) : List (Nat × Nat) := m.map (fun p => (p.1, cellContent heap p.2))
 
 end Model.Versioned
